@@ -9,7 +9,12 @@ from astropy.time import Time
 
 def bounded(pb, interp, rng, tier):
     import baseband
+    import baseband.base.base as _bbb
     import dask.array as da
+    # baseband 4.2 calls astropy's deprecated isiterable() inside a block where it has armed
+    # warnings as errors (file_info.continuous); whether that raises depends on the warning registry
+    # state.  Dependency incompatibility, not pulsarbat behaviour: neutralise it for the harness.
+    _bbb.isiterable = np.iterable
     root = os.path.dirname(os.path.dirname(pb.__file__))
     D = os.path.join(root, "tests", "data")
     if not os.path.isdir(D):
@@ -149,6 +154,19 @@ def bounded(pb, interp, rng, tier):
                 fail("BaseReader.read", "adjacent-reads-concatenate", name, "differs from the spanning read")
         if len(samples) < 3:
             samples.append({"file": name, "length": length, "requests": len(reqs)})
+    # lazy reads of two readers that differ only in subclass state, combined in ONE graph
+    ev += 1
+    try:
+        r1, r2 = pbr.BasebandReader(dd), pbr.BasebandReader(dd, lower_sideband=True)
+        e = np.asarray(r1.read(5, 40).data) - np.asarray(r2.read(5, 40).data)
+        g_ = (r1.dask_read(5, 40).data - r2.dask_read(5, 40).data).compute(scheduler="synchronous")
+        if not np.array_equal(g_, e):
+            fail("BaseReader.dask_read", "dask==eager.combined-graph", "USB and LSB readers of the same file", "lazy reads of different readers are not distinguished")
+        a_, b_ = r1.dask_read(0, 16), r1.dask_read(16, 16)
+        if not np.array_equal((a_.data + b_.data).compute(scheduler="synchronous"), np.asarray(r1.read(0, 16).data) + np.asarray(r1.read(16, 16).data)):
+            fail("BaseReader.dask_read", "dask==eager.combined-graph", "two offsets of one reader", "lazy reads are not distinguished")
+    except Exception as ex_:
+        fail("BaseReader.dask_read", "combined-graph.raises", "", f"{type(ex_).__name__}: {ex_}")
     # header mapping of the specialised readers
     ev += 2
     try:
